@@ -21,6 +21,8 @@ import ast
 import inspect
 import itertools
 
+import numpy as np
+
 PEND = object()
 
 
@@ -73,6 +75,7 @@ class Ref:
             else:
                 self.series[name] = node.body
         self.memo = {}
+        self.maxmag = 0.0
 
     # ---- helpers on values
     def zsum(self, *xs):
@@ -131,6 +134,12 @@ class Ref:
             del self.memo[key]
             raise
         self.memo[key] = v
+        # scale of the floating-point values met so far: a result that is small only through cancellation of much larger
+        # intermediates carries rounding errors of their size (used by the float verdict of the caller)
+        if isinstance(v, np.ndarray) and v.size and v.dtype != object:
+            m = float(np.max(np.abs(v)))
+            if m > self.maxmag and np.isfinite(m):
+                self.maxmag = m
         return v
 
     def _value(self, name, index):
